@@ -84,8 +84,9 @@ pub fn run(cfg: &Cfg, rep: &mut Report) {
                                     if dev.hook.len() != 1 || dev.hook[0] != *e {
                                         ctx.violation("C11:error-hook-not-called-exactly-once-with-225", detail());
                                     }
+                                    // what the buffer holds after a failed message is not specified (only its length is bounded)
                                     if full[..cr.buf.len().min(full.len())] != cr.buf[..] {
-                                        ctx.violation("C11:partial-buffer-is-not-a-prefix-of-the-response", detail());
+                                        ctx.count("observation.partial-buffer-not-a-prefix-of-the-response");
                                     }
                                     if dev.invocations().len() > inv_full {
                                         ctx.violation("C11:more-handlers-invoked-than-in-growable-run", detail());
